@@ -39,7 +39,7 @@ def harness(L, sw, ch, sr, K, mode):
         conds = {}
         try:
             gen = core.split(src, min_dur=1, max_dur=1, max_silence=1, drop_trailing_silence=bool(mode & 4), strict_min_dur=bool(mode & 2),
-                             analysis_window=SymRat(B, sr), validator=validator)
+                             analysis_window=c05.split_setup.aw, validator=validator)
             conds[("nothing read before the first next()", 0)] = src.calls == 0
             i = 0
             while True:
@@ -85,7 +85,7 @@ def replay_fn(c):
     from auditok import io as rio
     sw, ch, sr, B, n = c["sw"], c["ch"], c["sr"], c["B"], c["n"]
     bps = sw * ch
-    if int((B / sr) * sr) != B:
+    if int((c.get("Bq", 4 * B) / (4 * sr)) * sr) != B:
         return []
     data = byt.concrete_bytes(n * bps)
 
@@ -116,7 +116,7 @@ def replay_fn(c):
         n, B, c["min_length"], c["max_length"], c["mcs"], c["mode"], tok.stream_str(c["valid"]))
     try:
         gen = ak.split(src, min_dur=1, max_dur=1, max_silence=1, drop_trailing_silence=bool(c["mode"] & 4), strict_min_dur=bool(c["mode"] & 2),
-                       analysis_window=B / sr, validator=validator)
+                       analysis_window=c.get("Bq", 4 * B) / (4 * sr), validator=validator)
         if src.calls:
             return [("C08: split() reads its input before the first next()", desc + ": %d reads" % src.calls)]
         for r in gen:
